@@ -279,10 +279,14 @@ func WriteEvidence(dir string, prog *core.Prog, res *Result, tier string, loadWa
 	funcs, paths := 0, 0
 	var notes []string
 	ruleText := map[string]string{}
+	maxEntry, maxEntryName := 0, ""
 	for _, c := range res.Ctxs {
 		funcs += len(c.FuncsWalked)
 		paths += c.PathsWalked
 		notes = append(notes, c.Notes...)
+		if c.MaxEntryPaths > maxEntry {
+			maxEntry, maxEntryName = c.MaxEntryPaths, c.MaxEntryName
+		}
 	}
 	var ruleTexts []string
 	for _, s := range p.Sels {
@@ -319,11 +323,12 @@ func WriteEvidence(dir string, prog *core.Prog, res *Result, tier string, loadWa
 		"files_parsed":         len(files),
 		"entries_walked":       funcs,
 		"paths_walked":         paths,
+		"largest_walk":         fmt.Sprintf("%d paths (%s); cap per entry %d", maxEntry, maxEntryName, 60000),
 		"notes":                notes,
 		"known_findings":       known,
 		"floor_failures":       res.FloorFails,
 		"load_wall_s":          loadWall,
-		"bounds":               "inlining depth <= 10 declared functions (48 frames), loops unrolled 2 iterations, <= 20000 paths per entry; exceeding a bound yields an undecided obligation, which fails",
+		"bounds":               "inlining depth <= 10 declared functions (48 frames), loops unrolled 2 iterations, <= 60000 paths per entry; exceeding a bound yields an undecided obligation, which fails",
 		"all_obligations_file": "",
 	}
 	for k, v := range res.Extra {
